@@ -7,9 +7,12 @@
 (* every sequence of operations up to the depth bound.                     *)
 (*                                                                         *)
 (* With Restrict = TRUE the two recorded known-finding classes are kept    *)
-(* out (no mutating call while a promotion destination is partially        *)
-(* yielded, no remove_move of a promotion move): the refinement holds.     *)
-(* With Restrict = FALSE TLC finds the known findings as counterexamples.  *)
+(* out: no remove_move of a promotion move, and no mutating call while a   *)
+(* promotion destination is partially yielded UNLESS the call leaves that  *)
+(* destination the one the iterator meets first among the promotions       *)
+(* (then the cursor still belongs to it and the code is right).  The       *)
+(* refinement holds.  With Restrict = FALSE TLC finds the known findings   *)
+(* as counterexamples.                                                     *)
 (***************************************************************************)
 EXTENDS MoveIterSys, TLC
 CONSTANTS Restrict, MaxOps
@@ -17,7 +20,8 @@ CONSTANTS Restrict, MaxOps
 R == INSTANCE MoveIter
 
 \* squares 0..3 of a toy board; sources 10, 11, 12
-InitEntries == << [src |-> 10, dests |-> {0, 1}, promo |-> TRUE],
+InitEntries == << [src |-> 13, dests |-> {1, 3}, promo |-> TRUE],
+                  [src |-> 10, dests |-> {0, 1}, promo |-> TRUE],
                   [src |-> 11, dests |-> {2}, promo |-> FALSE],
                   [src |-> 11, dests |-> {3}, promo |-> FALSE],
                   [src |-> 12, dests |-> {1, 2}, promo |-> FALSE] >>
@@ -26,26 +30,30 @@ Masks == SUBSET Squares
 
 VARIABLES entries, idx, mask, pcur,     \* layer S
           abs,                          \* layer R state [rem, mask]
+          grp,                          \* <<src, dest>> of the promotion destination in progress, or <<-1,-1>>
           ok, nops
-vars == <<entries, idx, mask, pcur, abs, ok, nops>>
+vars == <<entries, idx, mask, pcur, abs, grp, ok, nops>>
 
 Init == /\ entries = InitEntries /\ idx = 1 /\ mask = Squares /\ pcur = 0
         /\ abs = [rem |-> Abs(InitEntries, 1, Squares, 0), mask |-> Squares]
-        /\ ok = TRUE /\ nops = 0
+        /\ grp = <<-1, -1>> /\ ok = TRUE /\ nops = 0
 
 Mid == pcur # 0
+\* the call keeps the cursor on its destination
+Kept == InProgress(entries', idx', mask') = grp
 DoNext == LET r == NextOp(entries, idx, mask, pcur) IN
           /\ entries' = r[2] /\ idx' = r[3] /\ pcur' = r[4] /\ mask' = mask
+          /\ grp' = (IF r[4] # 0 THEN <<r[1] \div 320, (r[1] % 320) \div 5>> ELSE <<-1, -1>>)
           /\ IF r[1] = -1 THEN ok' = R!Exhausted(abs) /\ abs' = abs
              ELSE ok' = R!CanYield(abs, r[1]) /\ abs' = R!AfterYield(abs, r[1])
-DoSetMask(M) == /\ (Restrict => ~Mid)
-                /\ entries' = SetMaskOp(entries, M) /\ idx' = 1 /\ mask' = M /\ pcur' = pcur
+DoSetMask(M) == /\ entries' = SetMaskOp(entries, M) /\ idx' = 1 /\ mask' = M /\ pcur' = pcur /\ grp' = grp
+                /\ (Restrict => (~Mid \/ Kept))
                 /\ abs' = R!SetMask(abs, M) /\ ok' = TRUE
-DoRemove(M) == /\ (Restrict => ~Mid)
-               /\ entries' = RemoveOp(entries, M) /\ UNCHANGED <<idx, mask, pcur>>
+DoRemove(M) == /\ entries' = RemoveOp(entries, M) /\ UNCHANGED <<idx, mask, pcur, grp>>
+               /\ (Restrict => (~Mid \/ Kept))
                /\ abs' = R!Remove(abs, M) /\ ok' = TRUE
-DoRemoveMove(c) == /\ (Restrict => (~Mid /\ c % 5 = 0))
-                   /\ entries' = RemoveMoveOp(entries, c) /\ UNCHANGED <<idx, mask, pcur>>
+DoRemoveMove(c) == /\ entries' = RemoveMoveOp(entries, c) /\ UNCHANGED <<idx, mask, pcur, grp>>
+                   /\ (Restrict => (c % 5 = 0 /\ (~Mid \/ Kept)))
                    /\ abs' = R!RemoveMove(abs, c) /\ ok' = TRUE
 AllMoves == Abs(InitEntries, 1, Squares, 0)
 Next == /\ nops < MaxOps /\ nops' = nops + 1
